@@ -260,6 +260,21 @@ def exhaustive_small():
         add(fixed_ip(bytes([1, 1, 1, 1, 0x88, 4, 0, 7]), ihl=ihl, pl=b""))
         add(fixed_ip(bytes([1, 1, 1, 1, 0x88, 4, 0, 7]), ihl=ihl))
         add(fixed_ip(b"", ihl=ihl, pl=bytes(44)))
+    # the option layouts real traffic carries (router alert, record route, timestamp, LSRR, security, stream id) under every
+    # header length from 5 up to the one the layout needs, the buffer ending at the declared header end / with everything
+    # present: a declared header that ends inside a recognisable layout (cf. seeded/C01d for TCP)
+    layouts = [bytes([0x94, 4, 0, 0]), bytes([7, 7, 4, 10, 0, 0, 1, 1]), bytes([7, 11, 8, 10, 0, 0, 1, 10, 0, 0, 2, 0]),
+               bytes([0x44, 12, 5, 0, 0, 0, 0, 1, 0, 0, 0, 2]), bytes([0x83, 7, 4, 192, 0, 2, 1, 1]),
+               bytes([0x82, 11, 0, 0, 0, 0, 0, 0, 0, 0, 0, 1]), bytes([0x88, 4, 0, 7]), bytes([1, 1, 0x94, 4, 0, 0, 1, 1])]
+    for L in layouts:
+        need = (20 + len(L)) // 4
+        for ihl in range(5, need + 1):
+            b = fixed_ip(L, ihl=ihl, pl=b"")
+            add(b[:4 * ihl])
+            add(b)
+            add(fixed_ip(L, ihl=ihl, pl=bytes(range(1, 10))))
+            if ihl < need:
+                add(b[:4 * ihl + 2])
     for tot in (0, 1, 19, 20, 21, 22, 23, 24, 25, 26, 27, 28, 29, 65535):   # total length field around header / packet end
         add(fixed_ip(bytes([1, 1, 1, 0]), tot=tot, pl=b"\x01\x02\x03\x04"))
         add(fixed_ip(bytes([1, 1, 1, 0]), tot=tot, proto=17, pl=udp_fixed()))
